@@ -310,10 +310,16 @@ func (e *kengine) derive(s *kstate, v ssa.Value, depth int) kfact {
 					break
 				}
 				var okv func(v ssa.Value, d int) bool
+				onPath := map[ssa.Value]bool{}
 				okv = func(v ssa.Value, d int) bool {
-					if d > 3 {
+					if onPath[v] {
+						return true // a loop (v = v.Elem() until it is no pointer): nothing new comes in through it
+					}
+					if d > 8 {
 						return false
 					}
+					onPath[v] = true
+					defer delete(onPath, v)
 					switch y := v.(type) {
 					case *ssa.Parameter:
 						return true
